@@ -106,14 +106,15 @@ type Stack struct {
 	Confirm *confirm.Confirm
 
 	// seam bookkeeping for the current request
-	seamCalls   []string
-	FaultAt     int // index into seamCalls that fails (-1: none)
-	FaultAt2    int
-	FaultKind   FaultKind
-	FaultLabel  string // fail the first seam call with this label ("" = none)
-	MailFault   bool   // every Mailer.Send fails (kept apart from the seam counter: C18's fault enumeration is about the backends its statement names)
-	faultFired  []string
-	stateWrites int
+	seamCalls       []string
+	FaultAt         int // index into seamCalls that fails (-1: none)
+	FaultAt2        int
+	FaultKind       FaultKind
+	FaultLabel      string // fail the first seam call with this label ("" = none)
+	MailRenderFault bool   // every mail template rendering fails
+	MailFault       bool   // every Mailer.Send fails (kept apart from the seam counter: C18's fault enumeration is about the backends its statement names)
+	faultFired      []string
+	stateWrites     int
 	// UsedTokens records the (pid, hash) pairs UseRememberToken consumed during the current request.
 	UsedTokens []string
 
@@ -305,6 +306,13 @@ type renderer struct {
 func (r renderer) Load(names ...string) error { return r.inner.Load(names...) }
 
 func (r renderer) Render(ctx context.Context, page string, data authboss.HTMLData) ([]byte, string, error) {
+	if r.mail && r.s.MailRenderFault {
+		// the mail template fails: the mail that was about to be built (its data carries the link) never exists
+		r.s.faultFired = append(r.s.faultFired, "mailrenderer.Render")
+		js, _ := json.Marshal(data) // the shape the JSON mail renderer would have produced
+		r.s.W.Mails = append(r.s.W.Mails, Mail{Text: string(js), Failed: true})
+		return nil, "", ErrInjected
+	}
 	if !r.mail {
 		if err := r.s.seam("renderer.Render:"+page, nil); err != nil {
 			return nil, "", err
